@@ -48,6 +48,7 @@ def scenario(ctx, job):
         cur.store = storage.f[0].v.cell.v.f[0]
         g_before = cur.global_epoch_cell().v
         c1_before = cur.fld(cur.cluster_store('c1'), 'ClusterStore', 'epoch').v
+        cur.mark_initial()          # the restored store: the native replay of the served-epoch clauses starts from it
         e.notes['replay'] = {'kind': 'rust-test', 'filter': 'verif_replay_recover_epoch', 'spec': {'largest_proxy_epoch': (1 << 64) - 1, 'global_epoch': 0}}
         fut = e.run_func(e.find_fn('MemoryStorage', 'recover_epoch', 'MetaStorage'), [Ref(Cell(storage)), L])
         res = e.block_on(fut)
@@ -62,8 +63,12 @@ def scenario(ctx, job):
                     ep = cur.fld(p, 'Proxy', 'epoch').v
                     its.append(('served-epoch-above-every-proxy-epoch', 'C13/served-epoch-not-above-largest-proxy-epoch', z3.UGT(bv(ep), L),
                                 lambda m, addr=addr, ep=ep: dict(wit(m), proxy=addr, served_epoch=concretize(ep, m))))
-            rp = lambda m: {'kind': 'rust-test', 'filter': 'verif_replay_recover_views', 'spec': {'largest_proxy_epoch': concretize(L, m), 'global_epoch': concretize(g_before, m),
-                                                                                                    'cluster_epoch': concretize(c1_before, m)}}
+            def rp(m):
+                # the restored store itself (it may hold a cluster in the middle of a migration) + MetaStore::recover_epoch
+                sp = cur.replay_spec(m, ('recover',), (0, 1))
+                sp['spec']['ops'] = [{'op': 'recover_epoch', 'args': [concretize(L, m)]}]
+                sp['spec']['largest_proxy_epoch'] = concretize(L, m)
+                return sp
             for name in ('c1', 'c2'):
                 c = cur.view_cluster(0, name)
                 if c is not None:
